@@ -11,7 +11,7 @@
    the case in which the future is cancelled from outside. *)
 From Coq Require Import List String Bool ZArith.
 From Plumpy Require Import Val Mon PortModel Model Run LifePath LifeBook LifeSx LifeFx LifeAgree LifePtr LifeKill LifeArmed.
-From Plumpy Require LifeEsc LifeCarry.
+From Plumpy Require LifeEsc LifeCarry LifeKillTotal.
 Import ListNotations.
 
 (* kill() requested between any two loop callbacks of any run returns a result, never an exception *)
@@ -20,6 +20,16 @@ Theorem C04_kill_never_raises :
     exists x tr, trace (env_step w (ECtl (CKill msg))) = (tr ++ [EvCtl (CKill msg) x])%list /\ raised x = false.
 Proof. intros c es w msg Hf Hr. exact (control_calls_total c es w (CKill msg) Hf Hr eq_refl). Qed.
 Print Assumptions C04_kill_never_raises.
+
+(* ... also when a life-cycle hook raises: for every run with ANY injected fault (any hook, occurrence, exception; no outside
+   cancellation of the future) kill() returns a result — True, False or the pending action — never an exception: a hook that
+   raises inside the transition to KILLED is absorbed by transition_to (the process then ends EXCEPTED with it, C03), it does
+   not reach the caller of kill() *)
+Theorem C04_kill_never_raises_even_with_a_fault :
+  forall c es w msg, run c es = Some w -> ~ In ECancelFuture es ->
+    exists x tr, trace (env_step w (ECtl (CKill msg))) = (tr ++ [EvCtl (CKill msg) x])%list /\ raised x = false.
+Proof. exact LifeKillTotal.kill_never_raises_with_faults'. Qed.
+Print Assumptions C04_kill_never_raises_even_with_a_fault.
 
 (* between steps: the process is KILLED when kill() returns True; the text is recorded as status and in the
    KilledError the future raises; the process is closed *)
